@@ -1,32 +1,42 @@
 #!/usr/bin/env python3
-"""For one seeded change per property: run the property's quick check against the changed tree, take the first replay file,
-replay it against the changed tree (must reproduce: exit 1) and against /repo (must not: exit 0)."""
-import glob, json, os, subprocess, sys
+"""tools/replay_smoke.py [SEED_ID ...]   (default: the first-wave change m1 of every property)
+For each seeded change: run the property's quick check against the changed tree, take EVERY replay file it names (up to
+4), replay each against the changed tree (must reproduce: exit 1) and against /repo (must not: exit 0)."""
+import json, os, subprocess, sys
+
 
 def sh(cmd, env=None, timeout=2400):
-    e = dict(os.environ); e.update(env or {})
+    e = dict(os.environ)
+    e.update(env or {})
     return subprocess.run(cmd, shell=True, capture_output=True, text=True, env=e, timeout=timeout)
 
-results = []
-for i in range(1, 21):
-    pid = "C%02d" % i
-    seed = f"/verif/seeded/{pid}-m1" if pid not in ("C15",) else f"/verif/seeded/{pid}-m1"
-    W = f"/var/tmp/replaysmoke.{pid}"
+
+seeds = sys.argv[1:] or ["C%02d-m1" % i for i in range(1, 21)]
+for sid in seeds:
+    pid = sid.split("-")[0]
+    seed = f"/verif/seeded/{sid}"
+    W = f"/var/tmp/replaysmoke.{sid}"
     sh(f"git -C /repo worktree remove --force {W}")
-    base = json.load(open(seed + "/meta.json")).get("repo_head", "HEAD").split()[0]
+    meta = json.load(open(seed + "/meta.json"))
+    base = meta.get("repo_head", "HEAD").split()[0]
+    caught = [c for c, d in meta.get("checks_quick", {}).items() if d.get("violations")] or [pid]
+    chk = pid if pid in caught else caught[0]
     sh(f"git -C /repo worktree add --detach -q {W} HEAD")
     if sh(f"git -C {W} apply {seed}/patch.diff").returncode != 0:
-        sh(f"git -C /repo worktree remove --force {W}"); sh(f"git -C /repo worktree add --detach -q {W} {base}"); sh(f"git -C {W} apply {seed}/patch.diff")
+        sh(f"git -C /repo worktree remove --force {W}")
+        sh(f"git -C /repo worktree add --detach -q {W} {base}")
+        sh(f"git -C {W} apply {seed}/patch.diff")
     try:
-        r = sh(f"cd /verif && timeout 1500 ./check {pid} --tier quick", {"VERIF_REPO": W})
-        files = [l.split("replay=")[1].strip() for l in r.stdout.splitlines() if l.startswith("VIOLATION")]
+        r = sh(f"cd /verif && timeout 1500 ./check {chk} --tier quick", {"VERIF_REPO": W})
+        files = [l.split("replay=")[1].strip() for l in r.stdout.splitlines() if l.startswith("VIOLATION")][:4]
         if not files:
-            results.append((pid, "NO VIOLATION", r.returncode)); continue
-        f = files[0]
-        a = sh(f"cd /verif && timeout 900 ./check {pid} --replay {f}", {"VERIF_REPO": W})
-        b = sh(f"cd /verif && timeout 900 ./check {pid} --replay {f}")
-        results.append((pid, "replay on changed tree rc=%d, on /repo rc=%d" % (a.returncode, b.returncode), "OK" if (a.returncode == 1 and b.returncode == 0) else "BAD: " + (a.stdout + a.stderr + b.stdout + b.stderr)[-300:]))
+            print(sid, chk, "NO VIOLATION", r.returncode, flush=True)
+            continue
+        for f in files:
+            a = sh(f"cd /verif && timeout 900 ./check {chk} --replay {f}", {"VERIF_REPO": W})
+            b = sh(f"cd /verif && timeout 900 ./check {chk} --replay {f}")
+            ok = a.returncode == 1 and b.returncode == 0
+            sig = json.load(open(f)).get("signature") if os.path.exists(f) else None
+            print(sid, chk, "replay changed rc=%d /repo rc=%d" % (a.returncode, b.returncode), "OK" if ok else "BAD " + json.dumps(sig) + " :: " + (a.stdout + a.stderr)[-200:].replace("\n", " | "), flush=True)
     finally:
         sh(f"git -C /repo worktree remove --force {W}")
-for r in results:
-    print(*r)
